@@ -3,6 +3,8 @@
 A. TLC: Writer.tla (pc machine of writeCachedDataPoints/writeForever, storing thread,
    backend calls that may raise, create limiting) - NoDoubleWrite, NoRewriteAfterError,
    WriteOnlyExisting, NoSilentDiscard, FateWritten, Counters.
+D. Executions at lock/backend-call granularity are also validated against Writer.tla itself
+   (Writer_Trace.tla: logged events matched to actions, silent writer steps inserted by TLC).
 B/C. The real writeForever() runs under the line-level scheduler against real stores, an
    in-memory database plugin with a fault script (every single-fault placement, then pairs),
    the real counters and the twisted error log; WriterLin.tla judges every trace.
@@ -59,6 +61,7 @@ def run(ctx):
         fs = set(ctx.rng.sample(range(ncalls + 2), min(k, ncalls + 2)))
         n = writercheck.explore(ctx, wm, cfg, r_ops, fs, pre, bound=0, nrandom=ctx.pick(2, 6), limit=10, sink=col)
         ctx.evaluations += n
+  writercheck.conformance(ctx, wm, col, nworkloads=ctx.pick(4, 18), nrandom=ctx.pick(15, 60), limit=ctx.pick(60, 400))
   verdicts = writersys.judge(ctx, col.traces, 'C03 traces')
   writercheck.report(ctx, col, verdicts, 'C03')
   writercheck.negative_controls(ctx, col, verdicts)
